@@ -229,6 +229,15 @@ def run(ctx):
     counting.cnt2(ctx, lib)
     counting.chr1(ctx, lib)
     counting.fch1(ctx, lib)
+    # ESCP-2 (b), shared with C11: the literal printer applies the escaper on every path before it prints a grapheme
+    from .C11 import literal_printer_escapes
+    from .C01 import find_escape_entry as _fee
+    ctx.rule("ESCP-2", "every literal is escaped before printing: the literal printer calls the symbol escaper on the grapheme or on each of its repetitions on every path")
+    _hits = _fee(lib)
+    if len(_hits) == 1:
+        literal_printer_escapes(ctx, lib, _hits[0])
+    else:
+        ctx.anchor_lost("ESCP-2", "symbol escaper")
     ctx.rule("BRZ-1", "every update of the equation system in the state-elimination function has the shape of Brzozowski's algebraic method "
                       "(b[n]=a[n,n]*b[n]; a[n,j]=a[n,n]*a[n,j]; b[i]=b[i]+a[i,n]b[n]; a[i,j]=a[i,j]+a[i,n]a[n,j]; n = reversed loop variable)")
     brz1(ctx, lib)
@@ -269,10 +278,21 @@ def uni(ctx, lib):
                 ao = fi.defs.operand(a)
                 # the expression whose character set is taken: innermost operand of extract(clone(E))
                 inner = None
+                # the expression whose character set is taken: the extractor's argument, by value through a clone (extract(E.clone())) or by reference (extract(&E))
                 for x in local.walk(ao):
-                    if x[0] == "call" and x[1].endswith("Clone>::clone") and x[2]:
-                        inner = local.show(local.peel(x[2][0]))
+                    xb = lib.body(x[1]) if x[0] == "call" else None
+                    if xb is not None and x[2] and xb.sig_output and xb.sig_output.startswith("std::collections::BTreeSet<char>") \
+                            and len(xb.sig_inputs) == 1 and xb.sig_inputs[0].lstrip("&") == EXPR:
+                        it = local.peel(x[2][0])
+                        if it[0] == "call" and it[1].endswith("Clone>::clone") and it[2] and EXPR in it[1]:
+                            it = local.peel(it[2][0])
+                        inner = local.show(it)
                         break
+                if inner is None:
+                    for x in local.walk(ao):
+                        if x[0] == "call" and x[1].endswith("Clone>::clone") and x[2]:
+                            inner = local.show(local.peel(x[2][0]))
+                            break
                 if inner is None or inner not in singles:
                     bad.append(inner or local.show(ao)[:60])
             if bad:
@@ -325,7 +345,18 @@ def uni4(ctx, prog, lib):
                     infeasible = True
             if infeasible:
                 continue
-            absent = any(re.search(r"discr\(.*clone\(%s\)\)$" % re.escape(other), a) and v in ("0", "not in [1]") for a, v in lab) \
+            def discr_of(atom, prm):
+                m_ = re.match(r"^discr\((.*)\)$", atom)
+                if not m_:
+                    return False
+                inner_ = m_.group(1)
+                for _i in range(6):
+                    m2_ = re.match(r"^(?:[\w:<>, ]*clone|\*|&)\(?(.*?)\)?$", inner_)
+                    if inner_ == prm or not m2_:
+                        break
+                    inner_ = m2_.group(1)
+                return inner_.strip("*&() ") == prm
+            absent = any((re.search(r"discr\(.*clone\(%s\)\)$" % re.escape(other), a) or discr_of(a, other)) and v in ("0", "not in [1]") for a, v in lab) \
                 or any(re.search(r"is_some\(%s\)$" % re.escape(other), a) and v == "False" for a, v in lab) \
                 or any(re.search(r"is_none\(%s\)$" % re.escape(other), a) and v == "True" for a, v in lab)
             equal = any(a.startswith("Ne(") and v == "False" and all(p_ in a for p_ in pnames) for a, v in lab) \
